@@ -17,7 +17,7 @@ use crate::pred::*;
 use crate::props::common::*;
 
 const THIS_VARIANTS: [&str; 4] = ["this_sticky", "this_dropped_on_store", "this_dropped_on_pass", "args_copy"];
-const N_OPS: usize = 26;
+const N_OPS: usize = 28;
 
 fn pv(e: Expr) -> Stmt { sdmodel::ast::print(e) }
 fn o(i: usize) -> Expr { var(&format!("o{i}")) }
@@ -42,6 +42,8 @@ fn op(code: usize) -> (Vec<Stmt>, &'static str) {
         22 => (vec![pv(call(index(var("l"), int(0)), vec![]))], "call a list element"),
         23 => (vec![pv(call(var("callit"), vec![h()]))], "call inside another function"),
         24 => (vec![assign(prop(o(3), "inner"), o(2))], "re-point the chain"),
+        26 => (vec![assign(range_index(var("l"), Some(int(0)), Some(int(1))), list(vec![h()]))], "put in a list by range assignment"),
+        27 => (vec![assign(var("l"), bin(Op::Sum, range_index(bin(Op::Sum, list(vec![h()]), var("l")), Some(int(0)), Some(int(1))), list(vec![])))], "put in a list built by concatenation and slicing"),
         _ => (vec![assign(h(), obj(vec![pair("tag", int(9)), pair("nm", string("n9")), pair("m", h())])), assign(h(), prop(h(), "m"))], "through a fresh object literal"),
     }
 }
@@ -216,7 +218,7 @@ fn catalogue() -> Vec<(Case, bool)> {
 }
 
 pub fn run(ctx: &Ctx) {
-    ctx.set_rule("all histories of length <= 3 (thorough: length 4 complete, length 5 sampled 1:40) over 26 operations {attach h to o1/o2/o3, read by .m / [\"m\"] from each, fresh function, through argument+return, into / out of a list, chain read, closure capture, copy between variables, re-attach from o1 to o2, re-point the chain, through a fresh object literal, call h(), o.m(), chain call, list element call, call inside another function} x 6 definition styles (named, anonymous, nested closure, `this` only inside an interpolation slot / a slot of a slot / a closure called from a slot) (named fn, anonymous, nested closure), objects carrying distinct tags; arity 0..4 x rest x argument count 0..arity+2 x plain/spread with tracing arguments and a parameter that is assigned inside; catalogue of parameter freshness / this identity; oracle: reference with origin provenance. Non-trivial = the history distinguishes one of {this = first object ever, this dropped on store, this dropped on pass, arguments copied} or has >= 2 moves; distinct = distinct source texts");
+    ctx.set_rule("all histories of length <= 3 (thorough: length 4 complete, length 5 sampled 1:40) over 28 operations {attach h to o1/o2/o3, read by .m / [\"m\"] from each, fresh function, through argument+return, into / out of a list, chain read, closure capture, copy between variables, re-attach from o1 to o2, re-point the chain, through a fresh object literal, call h(), o.m(), chain call, list element call, call inside another function} x 6 definition styles (named, anonymous, nested closure, `this` only inside an interpolation slot / a slot of a slot / a closure called from a slot) (named fn, anonymous, nested closure), objects carrying distinct tags; arity 0..4 x rest x argument count 0..arity+2 x plain/spread with tracing arguments and a parameter that is assigned inside; catalogue of parameter freshness / this identity; oracle: reference with origin provenance. Non-trivial = the history distinguishes one of {this = first object ever, this dropped on store, this dropped on pass, arguments copied} or has >= 2 moves; distinct = distinct source texts");
     ctx.replay_corpus(None);
     ctx.judge_all(catalogue(), Via::Cli, None);
     ctx.judge_all(call_matrix(ctx), Via::Cli, None);
